@@ -176,6 +176,11 @@ def run(ctx, rep: Report, deep: bool = False):
     cases = []
     for i in range(ctx.n(60, 1000)):
         nt = rng.randint(1, 8)
+        if i % 10 == 3:
+            nt = max(nt, 2)  # room for the pair-looking titles
+        if i % 50 == 7:
+            nt = 90  # S147: a sheet of well over 4 KiB (a sample CD): every line of it counts
+            rep.feat("sheet_longer_than_4k")
         titled = rng.random() < 0.5
         bin_name = rng.choice(BIN_NAMES)  # S120: names with blanks, as ripping tools write them
         lines = [f'FILE "{bin_name}" BINARY\n']
@@ -192,7 +197,14 @@ def run(ctx, rep: Report, deep: bool = False):
                 rep.feat("track_numbers_out_of_order")
         for k in numbers:
             lines.append(f"  TRACK {k:02d} AUDIO\n")
-            if titled and rng.random() < 0.7:
+            if i % 10 == 3 and nt >= 2 and len(titles) < 2:
+                # S150: two tracks whose titles differ only in a final L / R - CD tracks are stereo already and must
+                # be written one by one
+                t = ["Pink Noise L", "Pink Noise R"][len(titles)] if i % 20 == 3 else ["Side-R", "Side-L"][len(titles)]
+                lines.append(f'    TITLE "{t}"\n')
+                titles.append(t)
+                rep.feat("titles_that_look_like_a_pair")
+            elif titled and rng.random() < 0.7:
                 t = f"Song {k} x{rng.randint(0, 99)}"
                 lines.append(f'    TITLE "{t}"\n')
                 titles.append(t)
@@ -249,7 +261,7 @@ def run(ctx, rep: Report, deep: bool = False):
         rep.feat("odd_sheets")
     if ctx.model_available:
         compare_family(rep, "cdda", [c for c in cases if c.impl != "skip"], nontrivial=lambda c: c.impl.count(";") >= 2)
-    rep.required_features = ["pairs_exported", "multi_track", "odd_sheets", "tail_2352", "tail_3", "track_numbers_out_of_order", "tracks_100_minutes_and_more"]
+    rep.required_features = ["pairs_exported", "multi_track", "odd_sheets", "tail_2352", "tail_3", "track_numbers_out_of_order", "tracks_100_minutes_and_more", "titles_that_look_like_a_pair", "sheet_longer_than_4k"]
 
 
 def search(ctx, rep: Report):
